@@ -162,8 +162,18 @@ def run(prog, tier):
             if not stores_:
                 continue
             early_ = [r_.lineno for r_ in ast.walk(psd_) if isinstance(r_, ast.Return) and r_.lineno < max(stores_)]
+            # ... nor is a table stored only under a condition that looks at what is already there (the same skip, written as a guard)
+            for if_ in ast.walk(psd_):
+                if isinstance(if_, ast.If) and not if_.orelse and any(
+                        isinstance(x, (ast.Attribute,)) and isinstance(x.value, ast.Name) and x.value.id == sn_ and isinstance(x.ctx, ast.Load)
+                        for x in ast.walk(if_.test)) or (isinstance(if_, ast.If) and not if_.orelse and any(
+                            isinstance(x, ast.Call) and U(x.func) in ("getattr", "hasattr") for x in ast.walk(if_.test))):
+                    if any(isinstance(s2, (ast.Assign, ast.AugAssign)) and any(
+                            isinstance(t2, ast.Attribute) and isinstance(t2.value, ast.Name) and t2.value.id == sn_
+                            for t2 in (s2.targets if isinstance(s2, ast.Assign) else [s2.target])) for b2 in if_.body for s2 in ast.walk(b2)):
+                        early_.append(if_.lineno)
             obs.append(struct_ob("builder-vs-pairwise", qual(kc_, psd_) + "[tables-refreshed]", not early_,
-                                 f"line {early_[0] if early_ else 0}: pass_spatial_data returns before its tables are rebuilt - a later point set "
+                                 f"line {early_[0] if early_ else 0}: pass_spatial_data returns before its tables are rebuilt, or rebuilds them only when the stored ones do not fit - a later point set "
                                  f"of the same shape is evaluated with the earlier set's tables", kc_.module.relpath, psd_.lineno, tier="F"))
     # ---------------------------------------------------------------- gradients
     def grad_ob(kname, label, got, wrt, K, ci, cag, note=""):
